@@ -293,6 +293,16 @@ spec("C20",
      assumptions=["JIT interval trace entries may be the more conservative Both relative to the model's (its interval arithmetic may be wider); JIT point traces must equal the interpreter's"],
      )
 
+spec("C09",
+     cmd="c09", count=dict(quick=160, thorough=4000),
+     vo_targets=["props/C09.vo"],
+     level="proof",
+     rule="cases cycle through 2D render / 3D render / mesh / one tape evaluated from 12 threads at once, interpreter or JIT at random; each workload: reference without a pool (twice), three custom pools out of {1,2,3,4,5,8,12,16} threads run twice each with the schedule-point hook injecting yields and sleeps of up to 150us keyed to the task / poll number (different seed per run), the global pool, then cancellation injected through the hook at exact poll numbers {1, middle, last, random} with no pool / 2 / 4 threads, cancellation before the start, and a never-cancelled run under jitter; results compared bit for bit (images) or as sorted sets of oriented triangles over vertex bit patterns (meshes); task counts (raster root tiles after TileSizesRef trimming, octree tasks after the breadth-first expansion) and one-poll-per-tile are compared with the Coq model; distinct_nontrivial = cases (each a fresh shape and configuration)",
+     classify=classify_backend,
+     assumptions=["data races inside a task, rayon's own correctness and the memory ordering of the relaxed cancel flag are outside the model; they are exercised by the perturbed differential runs only",
+                  "a late-observed flag only moves the cancellation moment later in the time order, which the theorems quantify over"],
+     )
+
 spec("C10",
      cmd="c10", count=dict(quick=300, thorough=6000),
      vo_targets=["props/C10.vo"],
